@@ -246,7 +246,7 @@ def cases_for(model, rng, tier):
 
 def build_cases(tier, seed):
     rng = random.Random(seed * 7919 + 13)
-    n_models = 90 if tier == "quick" else 800
+    n_models = 75 if tier == "quick" else 800
     cases = []
     for m in corner_models():
         cases += cases_for(m, rng, tier)
